@@ -838,6 +838,18 @@ theorem Good.qOk : QOk (g.query.getD []) := by
     rw [hq] at this
     simpa using free_not_mem (freeOpt_some this) (c := '#') (by simp)
 
+theorem parts_pathOk (hp : Bool) : PathOk (normParts puny o hp (g.record po)).path :=
+  pathOk_normPath o _ _ (Good.pathOk hpc G)
+
+theorem parts_qOk (hp : Bool) : QOk (normParts puny o hp (g.record po)).query :=
+  qOk_query puny o _ _ (Good.qOk hpc G)
+
+theorem parts_noCtl_fragment (hp : Bool) : NoCtl (normComps puny o hp (g.record po)).fragment :=
+  noCtl_fragment puny o _ _ (G.noCtl_sub G.fragment_sub)
+
+theorem parts_fragment (hp : Bool) :
+    (normParts puny o hp (g.record po)).fragment = some (normComps puny o hp (g.record po)).fragment := rfl
+
 /-- the scheme of the result: none, or the lower-cased letters in front of `://` -/
 theorem scheme_cases :
     (normParts puny o g.proto.hasProto (g.record po)).scheme = [] ∨
